@@ -37,6 +37,7 @@ def run(ctx):
     for sc, m in zip(SCALES, mags):
         ctx.obligation('model:magnitude %s defined' % sc, m is not None, str(m))
         MAG[float(sc)] = None if m is None else int(m.v)
+    bridging(ctx, navis, np.random.default_rng([int(ctx.seed), 1616]), tr, hom, MAG)
     for ci in range(ctx.n(70, 900)):
         f = F.gen_forest(rng, 3, 25, roots=1, lattice=True, zero_edges=False)
         cn = F.gen_connectors(rng, f, 6)
@@ -131,7 +132,12 @@ def run(ctx):
                 ctx.violation('mesh connectors are not moved with the transform', desc)
         elif kind.startswith('dotprops'):
             x = dpk if kind == 'dotprops-k' else dp0
+            with_cn = bool(rng.random() < 0.6)     # connectors are stacked behind the points (and helper points) in the collated block
+            if with_cn:
+                x.connectors = pd.DataFrame({'connector_id': [1, 2, 3], 'x': [1., 2., -3.], 'y': [0., 1., 4.], 'z': [3., 4., -1.], 'type': [0, 1, 0]})
+            desc['connectors'] = with_cn
             p0 = np.asarray(x.points, dtype=float).copy()
+            c0 = x.connectors[['x', 'y', 'z']].values.astype(float).copy() if with_cn else None
             st, y = guarded(navis.xform, x, T)
             if st != 'ok':
                 ctx.violation('xform raised', desc, y)
@@ -139,6 +145,12 @@ def run(ctx):
             want = raw(T, p0)
             if np.abs(np.asarray(y.points) - want).max() > tol(want):
                 ctx.violation('dotprops points not moved as the raw array', desc)
+            if with_cn:
+                wc = raw(T, c0)
+                if y.connectors is None or np.abs(y.connectors[['x', 'y', 'z']].values - wc).max() > tol(wc) or list(y.connectors.connector_id) != [1, 2, 3]:
+                    ctx.violation('dotprops connectors are not moved with the transform', desc)
+                if not np.array_equal(x.connectors[['x', 'y', 'z']].values.astype(float), c0):
+                    ctx.violation('xform modified its input', desc)
             nrm = np.linalg.norm(np.asarray(y.vect, dtype=float), axis=1)
             if len(nrm) != len(p0) or np.abs(nrm - 1).max() > 1e-6:
                 ctx.violation('dotprops tangents are not unit vectors after the transform', desc, dict(norms=nrm[:5].tolist()))
@@ -236,3 +248,68 @@ def run(ctx):
                 nrm = np.linalg.norm(np.asarray(m1.vect, dtype=float), axis=1)
                 if np.abs(nrm - 1).max() > 1e-6:
                     ctx.violation('mirrored dotprops tangents are not unit vectors', d)
+
+
+
+def bridging(ctx, navis, rng, tr, hom, MAG):
+    """xform_brain over registered template spaces: coordinates follow the raw transform sequence, radii the detected power of ten,
+    and the units are those of the template the data ends up in - over one and several hops, both directions, neurons and lists"""
+    from navis.transforms import registry
+    from navis.transforms.templates import TemplateBrain
+    UN = ['1 nm', '1 um', '1 mm', '1 um', '1 nm']
+    for ci in range(ctx.n(24, 200)):
+        tag = 'C16v%d_%d' % (int(ctx.seed) % 100000, ci)
+        k = int(rng.integers(3, 5))
+        units = [UN[(j + int(rng.integers(0, 2)) * 0) % len(UN)] for j in range(k)]
+        if rng.random() < 0.5:
+            units = units[::-1]
+        nm = {'1 nm': 1.0, '1 um': 1e3, '1 mm': 1e6}
+        names = ['%s_%d' % (tag, j) for j in range(k)]
+        mats = []
+        for j in range(k):
+            registry.register_templatebrain(TemplateBrain(name=names[j], label=names[j], _navis_units=units[j]))
+        for j in range(k - 1):
+            sc = nm[units[j]] / nm[units[j + 1]]          # physical size preserved: a power of ten
+            P = np.eye(3)[rng.permutation(3)] * rng.choice([-1.0, 1.0], size=3)
+            b = rng.integers(-5, 6, size=3).astype(float)
+            A = hom(P * sc, b)
+            mats.append(A)
+            registry.register_transform(tr.AffineTransform(A), source=names[j], target=names[j + 1], transform_type='bridging')
+        f = F.gen_forest(rng, 4, 15, roots=1, lattice=True, zero_edges=False)
+        cn = F.gen_connectors(rng, f, 4)
+        a, bq = sorted(int(v) for v in rng.choice(k, size=2, replace=False))
+        if rng.random() < 0.6:
+            a, bq = 0, k - 1       # several hops through spaces with other units
+        if rng.random() < 0.5:
+            a, bq = bq, a
+        sk = F.mk_neuron(f, connectors=cn, radius=rng.integers(1, 6, size=len(f['ids'])).astype(float), name='sk', nid=5, units=units[a])
+        x = sk if rng.random() < 0.6 else navis.NeuronList([sk, F.mk_neuron(F.gen_forest(rng, 3, 8, roots=1, lattice=True, zero_edges=False), name='b', nid=9, units=units[a])])
+        desc = dict(kind='xform_brain', path=names, units=units, source=a, target=bq, forest=f, listed=hasattr(x, 'neurons'))
+        ctx.case(('bridge', str(units), a, bq, str(f['ids'])), nontrivial=abs(a - bq) > 1)
+        ctx.count('xform_brain:hops=%d' % abs(a - bq))
+        st, y = guarded(navis.xform_brain, x, source=names[a], target=names[bq], verbose=False)
+        if st != 'ok':
+            ctx.violation('xform_brain raised', desc, y)
+            continue
+        # raw image of the coordinates under the composed affine maps
+        Mtot = np.eye(4)
+        steps = range(a, bq) if a < bq else range(a - 1, bq - 1, -1)
+        for j in steps:
+            Mtot = (mats[j] if a < bq else np.linalg.inv(mats[j])) @ Mtot
+        scale_pow = int(round(np.log10(nm[units[a]] / nm[units[bq]])))
+        for n0, n1 in zip((x if hasattr(x, 'neurons') else [x]), (y if hasattr(y, 'neurons') else [y])):
+            p0 = n0.nodes[['x', 'y', 'z']].values.astype(float)
+            want = p0 @ Mtot[:3, :3].T + Mtot[:3, 3]
+            got = n1.nodes[['x', 'y', 'z']].values.astype(float)
+            if np.abs(got - want).max() > 1e-9 * max(1.0, np.abs(want).max()):
+                ctx.violation('xform_brain: node coordinates are not moved as the bridging sequence moves the raw array', desc)
+                break
+            wr = n0.nodes.radius.values * 10.0 ** scale_pow
+            if np.abs(n1.nodes.radius.values - wr).max() > 1e-9 * max(1.0, np.abs(wr).max()):
+                ctx.violation('xform_brain: radii do not follow the change of scale', desc, dict(got=n1.nodes.radius.values[:3].tolist(), want=wr[:3].tolist()))
+                break
+            u1 = float(n1.units.to('nm').magnitude)
+            if abs(u1 - nm[units[bq]]) > 1e-9 * nm[units[bq]]:
+                ctx.violation('xform_brain: units are not those of the target space / do not follow the change of scale', desc,
+                              dict(got=str(n1.units), want=units[bq]))
+                break
